@@ -12,19 +12,29 @@ THEOREMS = [
     'Ndn.C06.frames_concat', 'Ndn.C06.frames_never_partial',
     'Ndn.C06.gen_safe', 'Ndn.C06.receive_total', 'Ndn.C06.receive_total_of_safe',
     'Ndn.C06.receive_frame', 'Ndn.C06.receive_preserves_wf', 'Ndn.C06.udp_total',
+    # byte-level instantiation (the decoders are the C07 models, no longer black boxes)
+    'Ndn.C06.docErr_iff_raisable', 'Ndn.C06.bytes_decoders_raise_only', 'Ndn.C06.receive_bytes_total',
+    'Ndn.C06.receive_bytes_frame',
 ]
 PARTIAL = {}
 TRUSTED = [
     'C06: StreamReader.readexactly(n) returns the next n bytes of the concatenated stream or raises IncompleteReadError '
     '(the cut of the stream into reads is abstracted in the model; the harness feeds a real asyncio.StreamReader with '
     'every cut position of short streams and random k-cuts of long ones through the real StreamFace.run)',
-    'C06: the set of exception classes the byte-level decoders (parse_lp_packet_v2, parse_tl_num, parse_interest, '
-    'parse_data) can raise is taken to be {DecodeError, IndexError, ValueError, struct.error, TypeError}; this is SAMPLED '
-    'by the harness on the malformed stream (a class outside the set would surface as an exception leaving _receive), not '
-    'proved - the byte-level decoders are property C07',
-    'C06: the decoders are black boxes of the model (outcome = facts or exception class); the pipeline around them, the '
-    'generated except tuples and the pending-Interest / handler bookkeeping are modelled. Pending Interests are live '
-    '(not cancelled, not timed out: those histories are property C03); validators pass; handlers do not raise',
+    'C06: that the byte-level decoders (parse_lp_packet_v2, parse_tl_num, parse_interest, parse_data) raise only '
+    '{DecodeError, IndexError, ValueError, struct.error, TypeError} is PROVED for every byte string for the decoder models '
+    '(Ndn.Packet.decodePacket over the packet schemas regenerated from the live classes, Ndn.parseTlNum: C07 theorems '
+    'shipped_decoders_error_classes / parseTlNum_doc, composed in bytes_decoders_raise_only and receive_bytes_total). '
+    'What remains trusted is model = code: the decoder models are tied to the real decoders by C07\'s correspondence '
+    '(and C01/C02\'s for the Interest digest pointers), and on every run of this check the byte-level pipeline '
+    '(receiveBytes: C07 decoder models + fact extraction + pipeline, computed from the bytes alone) is compared with '
+    'the real _receive on every packet of the malformed stream; lean/NdnGen/C07.lean is refreshed from the source by '
+    'this check as well',
+    'C06: receive_total / receive_frame keep the decoders as black boxes of the model (outcome = facts or exception '
+    'class); the pipeline around them, the generated except tuples and the pending-Interest / handler bookkeeping are '
+    'modelled. Pending Interests are live (not cancelled, not timed out: those histories are property C03); '
+    'params_sha256_checker and the validators do not raise and pass; handlers do not raise; SHA-256 is a parameter of '
+    'the theorems (any function) and NdnModel/Sha256.lean in the driver',
     'C06: asyncio task spawning by the faces (one task per packet) is exercised by the harness only',
 ]
 RULE = ('(a) streams of 0..6 packets (types/lengths at the 1/3/5/9-byte TL-number boundaries) plus a proper prefix of '
@@ -52,8 +62,20 @@ def cls_name(n):
 
 def extract(repo):
     from ndn.encoding import TypeNumber, LpTypeNumber
+    _refresh_c07_tables(repo)
     return c06_extract.generate(repo, {'lp': LpTypeNumber.LP_PACKET, 'interest': TypeNumber.INTEREST,
                                        'data': TypeNumber.DATA})
+
+
+def _refresh_c07_tables(repo):
+    """receive_bytes_total is stated over the packet schemas of lean/NdnGen/C07.lean; regenerate that file from the
+    source with C07's own extractor (identical text unless the packet classes changed), so that a schema edit reaches
+    this check without waiting for a C07 run"""
+    import lib
+    from props import c07
+    text = c07.extract(repo)
+    with lib.Lock(os.path.join(lib.LEAN, '.build.lock')):
+        lib.write_if_changed(os.path.join(lib.LEAN, 'NdnGen', 'C07.lean'), text)
 
 
 # --------------------------------------------------------------------------- independent TLV helpers (spec side)
@@ -669,7 +691,7 @@ def run_recv(case):
                 rig.deliver(wire, typ)
             bg = [cls_name(x[0]) for x in loop.errors[err0:]]
             done = {str(i): o for i, o in outcomes.items() if i not in before}
-            trace.append({'typ': typ, 'dec': dec, 'exc': exc, 'bg': bg, 'done': done, 'invoked': invoked[inv0:],
+            trace.append({'typ': typ, 'wire': wire.hex(), 'dec': dec, 'exc': exc, 'bg': bg, 'done': done, 'invoked': invoked[inv0:],
                           'sent': len(rig.face.sent) - sent0, 'pit': _pit_snapshot(rig, ids, node_names)})
             sent0 = len(rig.face.sent)
         # finale: answer every Interest that is still pending with its own Data
@@ -717,7 +739,7 @@ def model_line(case, impl):
     toks = []
     for rec in impl['trace']:
         d = rec['dec']
-        toks.append(f"{rec['typ']},{d['lp']},{d['tl']},{d['int']},{d['data']}")
+        toks.append(f"{rec['typ']},{d['lp']},{d['tl']},{d['int']},{d['data']},{rec['wire'] or '-'}")
     return f"C06 recv {case['fe']} {pit} {fib} " + ' '.join(toks)
 
 
@@ -740,17 +762,23 @@ def model_obs(answer, case, impl):
         return {'got': pk, 'rem': '' if rem == '-' else rem}
     if k == 'udp':
         return answer
-    toks = answer.split(' ')
-    assert toks[-1].startswith('@'), answer
-    out = []
-    for t in toks[:-1]:
-        if t.startswith('err:'):
-            out.append(['err', t[4:]])
-        else:
-            assert t.startswith('ok:'), answer
-            effs = [] if t[3:] == '-' else t[3:].split('+')
-            out.append(['ok', sorted(effs)])
-    return {'steps': out, 'pit': _canon_pit(toks[-1][1:])}
+    parts = answer.split(' # ')
+    assert len(parts) == 2, answer
+    obs = {}
+    for key, part in zip(('', 'bytes-'), parts):
+        toks = part.split(' ')
+        assert toks[-1].startswith('@'), answer
+        out = []
+        for t in toks[:-1]:
+            if t.startswith('err:'):
+                out.append(['err', t[4:]])
+            else:
+                assert t.startswith('ok:'), answer
+                effs = [] if t[3:] == '-' else t[3:].split('+')
+                out.append(['ok', sorted(effs)])
+        obs[key + 'steps'] = out
+        obs[key + 'pit'] = _canon_pit(toks[-1][1:])
+    return obs
 
 
 def impl_obs(impl):
@@ -777,7 +805,10 @@ def impl_obs(impl):
         for pfx, tok in rec['invoked']:
             effs.append(f"I{pfx}:{'~' if tok is None else (tok or '-')}")
         steps.append(['ok', sorted(effs)])
-    return {'steps': steps, 'pit': [[n, ids] for n, ids in impl['trace'][-1]['pit']] if impl['trace'] else impl['pit0']}
+    pit = [[n, ids] for n, ids in impl['trace'][-1]['pit']] if impl['trace'] else impl['pit0']
+    # the same observation is compared twice: with the pipeline model fed the real decoders' outcomes ('steps'), and
+    # with the byte-level pipeline (C07 decoder models inside) fed the bytes alone ('bytes-steps')
+    return {'steps': steps, 'pit': pit, 'bytes-steps': steps, 'bytes-pit': pit}
 
 
 # ------------------------------------------------------------------------------------------- oracle
@@ -929,12 +960,16 @@ LEVEL_TEXT = ('Lean 4 theorems over (a) a model of StreamFace.run / read_tl_num_
               'byte stream; (b) a model of _receive/_on_nack/_on_data/_on_interest of both front-ends over abstract decoder '
               'outcomes, with the except tuples, the missing-Fragment guard and the Nack-lookup guard generated from the live '
               'source with ast: reception is total for every combination of decoder outcomes in the raisable set and every '
-              'table state, a dropped packet leaves the tables unchanged and uncompleted pending Interests stay pending; '
+              'table state, a dropped packet leaves the tables unchanged and uncompleted pending Interests stay pending; and '
+              'with the decoders instantiated by the byte-level decoder models of C07 (whose error classes are proved there '
+              'for every byte string) reception is total for EVERY delivered byte string and type number '
+              '(receive_bytes_total); '
               '(c) UdpFace.datagram_received is total for every datagram. Model and code are tied on every run by differential '
               'execution (real StreamReader with every cut, real NDNApp of both front-ends fed mutated packets) and the '
               'property oracle is evaluated on the implementation.')
-LEVEL_NOTE = ('Proofs are about the model; model = code is sampled. The decoders are black boxes whose set of exception classes '
-              'is sampled, not proved (C07 owns the decoders). Chunking is abstracted by readexactly in the proof and '
+LEVEL_NOTE = ('Proofs are about the model; model = code is sampled. The set of exception classes of the decoders is proved for '
+              'the C07 decoder models (not sampled any more); that those models are the real decoders is C07\'s correspondence '
+              'plus the byte-level comparison made here. Chunking is abstracted by readexactly in the proof and '
               'exercised exhaustively for short streams by the harness.')
 TECHNIQUE = ('Lean 4 proof (induction over packet lists / fuel, case analysis over generated except tuples closed by decide, '
              'table invariant) + generated tables from ast + model/implementation correspondence check')
